@@ -66,6 +66,9 @@ func (r *errRecorder) Record(l *optimize.Location, op optimize.Operation, s *opt
 	return nil
 }
 
+// bestOfAll lists the methods whose result is documented/implemented as the best of all evaluated points.
+var bestOfAll = map[string]bool{"GuessAndCheck": true, "ListSearch": true}
+
 func genMinimize(g *vlib.G) {
 	type methodSpec struct {
 		name string
@@ -173,6 +176,19 @@ func genMinimize(g *vlib.G) {
 						}
 						if res.Stats.GradEvaluations != st.gradCalls {
 							return fmt.Sprintf("Stats.GradEvaluations=%d but Grad was called %d times", res.Stats.GradEvaluations, st.gradCalls)
+						}
+						if bestOfAll[ms.name] && res.Status != optimize.Failure {
+							// methods that keep the best of everything they evaluated: evaluations that were in
+							// flight when the run was stopped were made and counted, so they must be folded in.
+							best := math.Inf(1)
+							for _, f := range st.evals {
+								if f < best {
+									best = f
+								}
+							}
+							if len(st.evals) > 0 && !(res.F <= best) {
+								return fmt.Sprintf("result F=%v but %v was evaluated (and counted in Stats.FuncEvaluations=%d): an evaluation was dropped", res.F, best, res.Stats.FuncEvaluations)
+							}
 						}
 						if res.Stats.MajorIterations > 0 {
 							f, ok := st.evals[fmt.Sprint(res.X)]
